@@ -134,6 +134,11 @@ int main(int argc, char *argv[])
             cf_pdu = pdu;
         }
 
+        // The datagram must hold the common header that is inspected next
+        if (res < (int)(proc_bytes + AVTP_COMMON_HEADER_LEN)) {
+            continue;
+        }
+
         // Check if the packet is a control format packet (i.e. NTSCF or TSCF)
         subtype = Avtp_CommonHeader_GetSubtype((Avtp_CommonHeader_t*)cf_pdu);
         if (subtype == AVTP_SUBTYPE_TSCF){
@@ -142,6 +147,11 @@ int main(int argc, char *argv[])
         } else {
             proc_bytes += AVTP_NTSCF_HEADER_LEN;
             msg_length = Avtp_Ntscf_GetNtscfDataLength((Avtp_Ntscf_t*)cf_pdu);
+        }
+
+        // The control header and a GPC header must be inside the datagram
+        if (res < (int)(proc_bytes + AVTP_GPC_HEADER_LEN)) {
+            continue;
         }
 
         // Check if the control packet payload is a ACF GPC.
@@ -156,9 +166,12 @@ int main(int argc, char *argv[])
         // Parse the GPC Packet and print contents on the STDOUT
         gpc_code = Avtp_Gpc_GetGpcMsgId((Avtp_Gpc_t*)acf_pdu);
         acf_msg_length = Avtp_Gpc_GetAcfMsgLength((Avtp_Gpc_t*)acf_pdu);
-        if (acf_msg_length * 4 <= MAX_MSG_SIZE) {
+        if (acf_msg_length * 4 <= MAX_MSG_SIZE && acf_msg_length * 4 >= AVTP_GPC_HEADER_LEN &&
+            proc_bytes + acf_msg_length * 4 <= (uint32_t)res) {
+            // The text is not necessarily terminated: print at most the message
             recd_msg = (char *) acf_pdu + AVTP_GPC_HEADER_LEN;
-            printf("%s : GPC Code %ld\n", recd_msg, gpc_code);
+            printf("%.*s : GPC Code %ld\n", (int)(acf_msg_length * 4 - AVTP_GPC_HEADER_LEN),
+                   recd_msg, gpc_code);
         }
     }
 
